@@ -350,15 +350,15 @@ theorem pop_den_eq_Q (S : Fscm.Model) (card : Name → Nat) (base : Nat) (G : MG
 conditioning part -/
 theorem pop_probShape (G : MG Name) (hnd : G.nodes.Nodup) (topo : List Name) (htnd : topo.Nodup)
     (hcov : ∀ v, v ∈ topo ↔ v ∈ G.nodes) (t : Name) :
-    TianSpec.ProbShape G.nodes (.prob (some (Var.plain t)) (TrDsl.plainVars (regular G)) [])
+    TianSpec.ProbShape (.prob (some (Var.plain t)) (TrDsl.plainVars (regular G)) [])
       (topo.filter (· ∈ regular G)) := by
   have hregnd : (regular G).Nodup := hnd.filter _
-  refine ⟨[], ?_, ?_, ?_, ?_⟩
+  apply TianSpec.probShape_of_exact _ _ _ _ []
   · exact (sortVars_plain_names (regular G) hregnd).trans (topo_filter_regular_perm hnd topo htnd hcov).symm
   · intro v hv
     rw [List.append_nil] at hv
     obtain ⟨n, _, rfl⟩ := List.mem_map.mp ((plainVars_perm (regular G) hregnd).mem_iff.mp hv)
-    exact ⟨rfl, rfl⟩
+    exact ⟨rfl, by simp [Var.plain]⟩
   · intro i hi
     cases hi
   · intro p hp
